@@ -30,6 +30,28 @@ pub fn sfs(ctx: &Ctx, args: &[&str], stdin: Option<&[u8]>) -> Run {
     sfs_env(ctx, args, stdin, &[])
 }
 
+/// The result goes to `-o PATH` where PATH already holds OLDER AND LONGER content (an earlier, larger result): what is found
+/// at PATH afterwards is returned as `stdout` (View.tla: Commit / DestinationHoldsOnlyResult - writing replaces the
+/// destination entirely).  `left_on_stdout` tells whether anything went to the real stdout as well.
+pub fn sfs_onto_stale_file(ctx: &Ctx, args: &[&str], stdin: &[u8], tag: &str) -> (Run, bool) {
+    static SEQ: std::sync::atomic::AtomicU64 = std::sync::atomic::AtomicU64::new(0);
+    let k = SEQ.fetch_add(1, std::sync::atomic::Ordering::Relaxed);
+    let path = format!("{}/files/stale_{}_{}_{k}.out", ctx.work, std::process::id(), tag);
+    std::fs::create_dir_all(format!("{}/files", ctx.work)).expect("mkdir");
+    // older content: a longer text spectrum followed by a longer npy body - longer than anything the callers produce
+    let mut old = write_text(&[40, 40], &vec![7.0; 1600], 6);
+    old.extend_from_slice(&write_npy(&[40, 40], &vec![7.0; 1600]));
+    old.extend_from_slice(stdin);
+    std::fs::write(&path, &old).expect("write stale file");
+    let mut a: Vec<&str> = args.to_vec();
+    a.extend(["-o", &path]);
+    let r = sfs(ctx, &a, Some(stdin));
+    let bytes = std::fs::read(&path).unwrap_or_default();
+    let _ = std::fs::remove_file(&path);
+    let left = !r.stdout.is_empty();
+    (Run { code: r.code, stdout: bytes, stderr: r.stderr }, left)
+}
+
 /// Like `sfs`, but the input arrives on a real pipe in two pieces: `first` bytes, a pause, the rest.
 pub fn sfs_delayed(ctx: &Ctx, args: &[&str], stdin: &[u8], first: usize) -> Run {
     let mut cmd = Command::new(&ctx.sfs_bin);
